@@ -3,18 +3,28 @@ from numba import prange
 
 from .._common import dist2d, jitted, norm2d
 from .._interp import interp2d
-from ._common import shrink
+from ._common import raise_status, shrink
 
 
 @jitted(
-    "Tuple((f8[:, :], i4))(f8[:], f8[:], f8[:, :], f8[:, :], f8, f8, f8, f8, f8, i4, b1)"
+    "Tuple((f8[:, :], i4, i4))(f8[:], f8[:], f8[:, :], f8[:, :], f8, f8, f8, f8, f8, i4, b1)"
 )
-def _ray2d(z, x, zgrad, xgrad, zend, xend, zsrc, xsrc, stepsize, max_step, honor_grid):
-    """Perform a posteriori 2D ray-tracing."""
+def _ray2d_status(
+    z, x, zgrad, xgrad, zend, xend, zsrc, xsrc, stepsize, max_step, honor_grid
+):
+    """
+    Perform a posteriori 2D ray-tracing.
+
+    Errors are returned as a status (1: end point out of bound, 2: maximum number of
+    steps reached) so that they are not lost when called from a parallel loop.
+
+    """
+    ray = np.empty((max_step, 2), dtype=np.float64)
+
     condz = z[0] <= zend <= z[-1]
     condx = x[0] <= xend <= x[-1]
     if not (condz and condx):
-        raise ValueError("end point out of bound")
+        return ray, 0, 1
 
     if honor_grid:
         nz, nx = len(z), len(x)
@@ -32,11 +42,10 @@ def _ray2d(z, x, zgrad, xgrad, zend, xend, zsrc, xsrc, stepsize, max_step, honor
     count = 1
     pcur = np.array([zend, xend], dtype=np.float64)
     delta = np.empty(2, dtype=np.float64)
-    ray = np.empty((max_step, 2), dtype=np.float64)
     ray[0] = pcur.copy()
     while dist2d(zsrc, xsrc, pcur[0], pcur[1]) >= stepsize:
         if count >= max_step:
-            raise RuntimeError("maximum number of steps reached")
+            return ray, count, 2
 
         gz = interp2d(z, x, zgrad, pcur)
         gx = interp2d(z, x, xgrad, pcur)
@@ -87,9 +96,22 @@ def _ray2d(z, x, zgrad, xgrad, zend, xend, zsrc, xsrc, stepsize, max_step, honor
             count += 1
 
     if count >= max_step:
-        raise RuntimeError("maximum number of steps reached")
+        return ray, count, 2
 
     ray[count] = np.array([zsrc, xsrc], dtype=np.float64)
+
+    return ray, count, 0
+
+
+@jitted(
+    "Tuple((f8[:, :], i4))(f8[:], f8[:], f8[:, :], f8[:, :], f8, f8, f8, f8, f8, i4, b1)"
+)
+def _ray2d(z, x, zgrad, xgrad, zend, xend, zsrc, xsrc, stepsize, max_step, honor_grid):
+    """Perform a posteriori 2D ray-tracing."""
+    ray, count, status = _ray2d_status(
+        z, x, zgrad, xgrad, zend, xend, zsrc, xsrc, stepsize, max_step, honor_grid
+    )
+    raise_status(status)
 
     return ray, count
 
@@ -102,8 +124,9 @@ def _ray2d_vectorized(
     n = len(zend)
     rays = np.empty((n, max_step, 2), dtype=np.float64)
     counts = np.empty(n, dtype=np.int32)
+    status = np.empty(n, dtype=np.int32)
     for i in prange(n):
-        rays[i], counts[i] = _ray2d(
+        rays[i], counts[i], status[i] = _ray2d_status(
             z,
             x,
             zgrad,
@@ -116,6 +139,10 @@ def _ray2d_vectorized(
             max_step,
             honor_grid,
         )
+
+    # Exceptions raised inside a parallel loop are lost: raise them afterwards
+    for i in range(n):
+        raise_status(status[i])
 
     return rays, counts
 
